@@ -30,11 +30,11 @@ ASSUMPTIONS = [
     "replace_basic_cs is judged against its docstring: new_location = T @ old + A",
     "rows of c-set grids are not judged (docstring mentions 'left over c-set' zeros)",
 ]
-MIN_NONTRIVIAL = {"quick": 1200, "thorough": 30000}
+MIN_NONTRIVIAL = {"quick": 1200, "thorough": 20000}
 TIMEOUT = {"quick": 1800, "thorough": 10800}
 NSHARD = {"quick": 16, "thorough": 16}
-NGEO = {"quick": 1500, "thorough": 40000}
-NRBE = {"quick": 900, "thorough": 20000}
+NGEO = {"quick": 1500, "thorough": 24000}
+NRBE = {"quick": 900, "thorough": 12000}
 FLOOR = 2e-13
 PERT = 1e-13
 KFAC = 200 * 2.220446049250313e-16 / PERT
